@@ -345,7 +345,9 @@ def j2(rep, src, impls):
     ):
         f = helpers[nm]
         ps = [p["pat"]["name"] for p in f.params if not p.get("self")]
-        oks = [(x, g) for x, g in walk_guards(f.body) if x["k"] == "call" and path_of(x["f"]) == "Ok"]
+        from .util_terms import desugar_early_returns
+
+        oks = [(x, g) for x, g in walk_guards(desugar_early_returns(f.body)) if x["k"] == "call" and path_of(x["f"]) == "Ok"]  # `if !c { return Err } Ok(v)` == `if c { Ok(v) } else { Err }`
         want = {tests[0] % ps[first], tests[1] % ps[second]}
         rep.instance("J2", "Base::%s@Ok" % nm, {"fn": nm, "ok_sites": len(oks), "required_tests": sorted(want)})
         if len(oks) != 1:
@@ -475,6 +477,13 @@ def closure_results(c):
         elif e["k"] == "match":
             for a in e["arms"]:
                 rec(a["body"])
+        elif e["k"] == "mcall" and e["m"] in ("then_some", "then") and len(e["args"]) == 1:
+            # `cond.then_some(v)` == `if cond { Some(v) } else { None }`
+            v = e["args"][0]
+            if e["m"] == "then" and v["k"] == "closure":
+                v = block_value(v["body"]) if v["body"]["k"] == "block" else v["body"]
+            out.append({"k": "call", "f": {"k": "path", "p": "Some", "segs": ["Some"]}, "args": [v], "l": e.get("l", 0)})
+            out.append({"k": "path", "p": "None", "segs": ["None"], "l": e.get("l", 0)})
         else:
             out.append(e)
 
@@ -540,14 +549,18 @@ def j4(rep, src, impls):
         # images of dense narrowing pairs
         g = fns["super_image"]
         setp = [p["pat"]["name"] for p in g.params if not p.get("self")][0]
-        sites = [(x, gd) for x, gd in walk_guards(g.body) if x["k"] == "mcall" and x["m"] == "intervals_image" and path_of(x["recv"]) == "self"]
+        from .util_terms import desugar_early_returns
+
+        gbody = desugar_early_returns(g.body)  # `if !set.all_values() { return Err(..) } self.intervals_image(set)` is the guarded form
+        sites = [(x, gd) for x, gd in walk_guards(gbody) if x["k"] == "mcall" and x["m"] == "intervals_image" and path_of(x["recv"]) == "self"]
         key = ty + "::super_image@all_values" + ("@dispatched" if pair in dispatched else "")
         if not dense:
             rep.instance("J4", key, {"impl": ty, "dense_domain": False, "why": reason}, nontrivial=False)
             continue
         guarded = bool(sites) and all(any(t_.endswith(".all_values()") and pol for t_, pol in guard_literals(gd)) for x, gd in sites)
-        e = block_value(g.body)
-        refuses = e is not None and e["k"] == "if" and e.get("else") is not None and (lambda v: v is not None and v["k"] == "call" and path_of(v["f"]) == "Err")(block_value(e["else"]))
+        e = block_value(gbody)
+        is_err = lambda v: v is not None and v["k"] == "call" and path_of(v["f"]) == "Err"
+        refuses = e is not None and e["k"] == "if" and e.get("else") is not None and (is_err(block_value(e["else"])) or is_err(block_value(e["then"])))
         rep.instance("J4", key, {"impl": ty, "dense_domain": True, "intervals_image_under_all_values": guarded, "refuses_otherwise": refuses, "dispatched_from_Base<%s, DataType>" % pair[0]: pair in dispatched})
         if not sites:
             rep.undecidable("J4", key, "no intervals_image call in super_image", g.where())
@@ -803,8 +816,10 @@ def j5(rep, src, mir):
         rep.error("J5: as_data_type not found in data_type/value.rs (%d)" % len(fs))
     else:
         f = fs[0]
-        e = block_value(f.body)
-        one_stmt = len(f.body["stmts"]) == 1
+        from .core import inline_lets
+
+        e = inline_lets(f.body)  # named locals (`let injection = ..; let v = ..;`) read like the expression they name
+        one_stmt = e is not None
         txt = show(e, 0).replace(" ", "") if e is not None else ""
         dt = [p["pat"]["name"] for p in f.params if not p.get("self") and p["pat"]["k"] == "ident"]
         ok = one_stmt and e is not None and e["k"] == "call" and path_of(e["f"]) == "Ok" and bool(dt) and re.match(r"^Ok\(self\.data_type\(\)\.inject_into\(&?%s\)\?\.value\(&.*\)\??\)$" % re.escape(dt[0]), txt)
